@@ -1,0 +1,15 @@
+//go:build verif
+
+package namespace
+
+// Machine-checked contracts for /verif (govc). Comment-only: compiled only with -tags verif, adds no code.
+
+// C35 / C32 (safety half): decoding arbitrary bytes received from a MoQ peer - before any authentication -
+// never indexes or slices out of range, never converts a length into a negative size and never asserts a wrong
+// type, and every make() size is bounded by the protocol limit that guards it.
+
+//@ func (ns *Namespace) Unmarshal
+//@   property C35, C32
+//@   safety alloc-bound, -ovf
+//@   loop 1 invariant len(buf) <= origLen && origLen == old(len(buf))
+//@   ensures [consumed-bytes-in-range] result1 == nil ==> 0 <= result0 && result0 <= len(buf)
